@@ -5,10 +5,15 @@
   exact (`Rat`) where the Python uses IEEE doubles; `round()` is modelled as round-half-even
   on the exact value.  Floating-point rounding is NOT modelled (see Props/C17).
 
-  `Variant` carries the two places where the pinned source deviates from the property
-  (DESIGN §2.4): the inverse formula and the rule choosing the negative encoding.
+  `Variant` carries the places where the pinned source deviates from the property
+  (DESIGN §2.4): the inverse formula, the rule choosing the negative encoding, and the cube-root
+  linearisation (`math.pow(x, 1.0/3)` raises ValueError for every negative argument).
   `Variant.asShipped` is the pinned code, `Variant.intended` the repaired code; the
-  correspondence run probes the real code to decide which one it must agree with.
+  correspondence run probes the real code to decide which one it must agree with.  For the
+  linearisation the variant shows in the FUNCTION TAG the translator derives from the shape of
+  the source (`Variant.cubertTag`: 11 = `math.pow(x, 1.0/3)`, 12 =
+  `math.copysign(math.pow(abs(x), 1.0/3), x)`), so the generated table itself says which one the
+  working tree contains.
   Core only.
 -/
 import PyIpmi.Base.Outcome
@@ -46,13 +51,19 @@ def signedRaw (fmt raw : Nat) : Int :=
 def pow10 (k : Int) : Rat :=
   if k < 0 then ((10 : Rat) ^ k.natAbs)⁻¹ else (10 : Rat) ^ k.toNat
 
-/-- `{…}[self.linearization & 0x7f]` with the generated table: the function tag, `none` = KeyError. -/
-def linTag (lin : Nat) : Option Nat :=
-  List.lookup (lin &&& Gen.SdrTables.linMask) Gen.SdrTables.lin
+/-- `{…}[self.linearization & 0x7f]` with a key ↦ function-tag table: the tag, `none` = KeyError. -/
+def linTagIn (tbl : List (Nat × Nat)) (lin : Nat) : Option Nat :=
+  List.lookup (lin &&& Gen.SdrTables.linMask) tbl
+
+/-- … with the table generated from the working tree. -/
+def linTag (lin : Nat) : Option Nat := linTagIn Gen.SdrTables.lin lin
 
 /-- The function behind a tag (tags are defined by harness/translate/sdr.py from the shape of
 each lambda): 0 `x`, 7 `1.0 / x`, 8 `math.pow(x, 2)`, 9 `math.pow(x, 3)`; the rest are the
-`math` functions, parameters here. -/
+`math` functions, parameters here.  Two shapes stand for the cube root:
+* 11 `math.pow(x, 1.0/3)` — the host's `pow` refuses a negative base with a fractional exponent
+  (`ValueError: math domain error`); for `x ≥ 0` it is the cube root;
+* 12 `math.copysign(math.pow(abs(x), 1.0/3), x)` — the cube root of `|x|` with the sign of `x`. -/
 def applyTag (F : Spec.Sensor.Fns) (tag : Nat) (x : Rat) : Outcome Rat :=
   match tag with
   | 0 => .ok x
@@ -66,33 +77,55 @@ def applyTag (F : Spec.Sensor.Fns) (tag : Nat) (x : Rat) : Outcome Rat :=
   | 8 => .ok (x * x)
   | 9 => .ok (x * x * x)
   | 10 => F.sqrt x
-  | 11 => F.cubert x
+  | 11 => if x < 0 then .pyError "ValueError" else F.cubert x
+  | 12 => if x < 0 then Spec.Sensor.negO (F.cubert (-x)) else F.cubert x
   | _ => .pyError "TieBroken"
 
 /-- The argument handed to `self.lin(…)`: `(self.m * raw + (self.b * 10**self.k1)) * 10**self.k2`. -/
 def arg (r : Rec) (raw : Nat) : Rat :=
   ((r.m : Rat) * (signedRaw r.fmt raw : Rat) + ((r.b : Rat) * pow10 r.k1)) * pow10 r.k2
 
-/-- `convert_sensor_raw_to_value`. -/
-def convert (F : Spec.Sensor.Fns) (r : Rec) : Option Nat → Option (Outcome Rat)
+/-- `convert_sensor_raw_to_value` with a given key ↦ function-tag table of `lin`. -/
+def convertIn (tbl : List (Nat × Nat)) (F : Spec.Sensor.Fns) (r : Rec) : Option Nat → Option (Outcome Rat)
   | none => none
   | some raw =>
-    some (match linTag r.lin with
+    some (match linTagIn tbl r.lin with
       | none => .decodingError
       | some t => applyTag F t (arg r raw))
 
+/-- `convert_sensor_raw_to_value` of the working tree (generated table). -/
+def convert (F : Spec.Sensor.Fns) (r : Rec) : Option Nat → Option (Outcome Rat) :=
+  convertIn Gen.SdrTables.lin F r
+
 /-! ### inverse -/
 
-/-- Which of the two deviations of the pinned source are present. -/
+/-- Which of the deviations of the pinned source are present. -/
 structure Variant where
   /-- `value*10^-k2 / m - b*10^k1` instead of `(value*10^-k2 - b*10^k1) / m`. -/
   formulaShipped : Bool
   /-- negative encoding chosen by `value < 0` instead of `raw < 0`. -/
   signShipped : Bool
+  /-- cube root written `math.pow(x, 1.0/3)`: ValueError for every `x < 0`
+  (intended: the real cube root, `math.copysign(math.pow(abs(x), 1.0/3), x)`). -/
+  cubertPowShipped : Bool
   deriving Repr, DecidableEq, Inhabited
 
-def Variant.asShipped : Variant := ⟨true, true⟩
-def Variant.intended : Variant := ⟨false, false⟩
+def Variant.asShipped : Variant := ⟨true, true, true⟩
+def Variant.intended : Variant := ⟨false, false, false⟩
+
+/-- The function tag (= shape of the source) of the cube-root entry of `lin`. -/
+def Variant.cubertTag (v : Variant) : Nat := if v.cubertPowShipped then 11 else 12
+
+/-- The function tag that stands for each linearisation of table 43-1 in the source of a variant:
+the table code, except for the cube root. -/
+def Variant.tagOf (v : Variant) : Spec.Sensor.Lin → Nat
+  | .cubert => v.cubertTag
+  | l => l.code
+
+/-- The `lin` dictionary of a variant: table code ↦ function tag, in key order. -/
+def Variant.linTable (v : Variant) : List (Nat × Nat) :=
+  [(0, 0), (1, 1), (2, 2), (3, 3), (4, 4), (5, 5), (6, 6), (7, 7), (8, 8), (9, 9), (10, 10),
+   (11, v.cubertTag)]
 
 /-- Python 3 `round(x)` for a float: nearest integer, ties to even (on the exact value). -/
 def roundHalfEven (q : Rat) : Int :=
